@@ -108,10 +108,10 @@ class C04(Prop):
             mon = drive.Mon(case.get('kind', 'ct'), sd)
             out = mon.evaluate(*drive.ct_args(sig, names))
         except Exception as e:
-            if all(x != x for x in exp.vs):
+            if any(x != x for x in exp.vs):
                 # the whole result is NaN-tainted (inf-inf): min/max/ordering on NaN are undetermined, and so is
                 # what an implementation's interval bookkeeping does with them
-                v.skip = 'raised on a completely NaN-tainted formula'
+                v.skip = 'raised on a NaN-tainted formula'
                 return v
             v.bad('raises:' + type(e).__name__, '%s signals=%s: evaluate raised %s: %s' % (
                 text, case['signals'], type(e).__name__, e),
